@@ -60,7 +60,7 @@ Print Assumptions C04_escrow_identity.
 (* withdrawable, the true guarded statement: a holder's send is accepted whenever (module-owned kind only) the chain
    module itself holds the amount in the bridge denomination; FX and externally-owned tokens need nothing module-side *)
 Theorem C04_withdrawable_guarded : forall g s c i tk a amt fee,
-  find_tok g i = Some tk -> on_chain tk c = true -> a <> cacc c -> 0 <= amt + fee ->
+  find_tok g i = Some tk -> on_chain tk c = true -> a <> cacc c -> 0 < amt -> 0 < fee ->
   amt + fee <= cget (CB a (base_of tk)) (sb s) ->
   0 <= cget (CB (cacc c) (base_of tk)) (sb s) -> 0 <= cget (CB a (alias_of tk c)) (sb s) ->
   0 <= cget (CB (cacc c) (alias_of tk c)) (sb s) ->
